@@ -40,11 +40,15 @@ def cminx_exe(sb_dir):
     return exe
 
 
-def run_cmake(sb_dir, exe, inp, outp, extra, raw=False, mode='script'):
+def run_cmake(sb_dir, exe, inp, outp, extra, raw=False, mode='script', ctx='top'):
     """mode 'script': cmake -P; 'project': an out-of-source configure of a project whose CMakeLists.txt makes the call (the working
     directory, against which relative paths are meant, is then neither the source nor the build directory)"""
     q = cq_raw if raw else cq
-    body = f'set(CMINX_EXECUTABLE {cq(exe)})\ninclude({cq(CMAKE_MODULE)})\ncminx_gen_rst({cq(inp)} {cq(outp)} {" ".join(q(e) for e in extra)})\nmessage(STATUS "configure continues")\n'
+    call = f'cminx_gen_rst({cq(inp)} {cq(outp)} {" ".join(q(e) for e in extra)})'
+    if ctx in ('function', 'macro'):
+        # the call sits in a helper that itself received more arguments than it passes on (ARGV<n>/ARGN of the caller must not leak in)
+        call = f'{ctx}(docs_helper first second)\n  {call}\nend{ctx}()\ndocs_helper(one two three -p LEAKED nightly "" x)'
+    body = f'set(CMINX_EXECUTABLE {cq(exe)})\ninclude({cq(CMAKE_MODULE)})\n{call}\nmessage(STATUS "configure continues")\n'
     env = dict(os.environ, HOME=os.path.join(sb_dir, 'home'), XDG_CONFIG_HOME=os.path.join(sb_dir, 'home', '.config'))
     env.pop('CMINXDIR', None)
     if mode == 'project':
@@ -97,16 +101,17 @@ def cmake_suite(seed, count, out, drv, budget_s=None, only=None):
             for grp in g.sample(EXTRA_GROUPS, g.choice([0, 0, 1, 1, 2, 3])):
                 extra += [x.replace('{SFILE}', sfile) for x in grp]
             if n % 6 == 5: extra += g.choice(FALSE_CONSTANT_GROUPS)
-            mode = ['script', 'project'][n % 2]; rel = (n // 2) % 2 == 1
+            mode = ['script', 'project'][n % 2]; rel = (n // 2) % 2 == 1; ctx = ['top', 'function', 'top', 'macro', 'function'][n % 5]
             if rel: inp = os.path.relpath(inp, sb.dir)        # relative to the working directory of both cmake and the direct run
-            key = ('C19', seed, n); rec = dict(suite='cmake', key=key, kind=kind, extra=extra, mode=mode, relative_input=rel)
+            key = ('C19', seed, n); rec = dict(suite='cmake', key=key, kind=kind, extra=extra, mode=mode, relative_input=rel, call_context=ctx)
+            out.dist['call-context:' + ctx] += 1
             out.dist['mode:' + mode] += 1; out.dist['input-path:' + ('relative' if rel else 'absolute')] += 1
             out.note_case(key, True); out.dist['input:' + kind] += 1; out.dist['extra-groups:%d' % (len(extra) // 2)] += 1
             out.sample(dict(suite='cmake', input_kind=kind, extra=extra))
             # (a) recorder: argv as CMake builds it vs the model
             r_exe, log = recorder(sb.dir)
             outa = os.path.join(sb.dir, g.choice(['out_a', 'out a']))
-            rc, txt = run_cmake(sb.dir, r_exe, inp, outa, extra, mode=mode)
+            rc, txt = run_cmake(sb.dir, r_exe, inp, outa, extra, mode=mode, ctx=ctx)
             out.traces_validated += 1
             argv = json.load(open(log)) if os.path.exists(log) else None
             mo = drv.run([dict(op='cmakewrap', is_dir=is_dir, input=inp, output=outa, extra=extra)])[0]
@@ -118,7 +123,7 @@ def cmake_suite(seed, count, out, drv, budget_s=None, only=None):
             # (b) the working-tree CMinx through CMake vs directly
             exe = cminx_exe(sb.dir)
             outb = os.path.join(sb.dir, 'out_b'); outc = os.path.join(sb.dir, 'out_c')
-            rcb, txtb = run_cmake(sb.dir, exe, inp, outb, extra, mode=mode)
+            rcb, txtb = run_cmake(sb.dir, exe, inp, outb, extra, mode=mode, ctx=ctx)
             rcc = run_cli(sb.dir, exe, [inp, '-o', outc] + extra + (['-r'] if is_dir else []))
             out.traces_validated += 2
             tb, tc = T.read_tree(outb), T.read_tree(outc)
@@ -133,12 +138,17 @@ def cmake_suite(seed, count, out, drv, budget_s=None, only=None):
                     diff = sorted(set(tb) ^ set(tc)) or [p for p in tb if tb[p] != tc.get(p)]
                     out.violations.append(dict(rec, detail=dict(kind='output tree through cminx_gen_rst differs from the command line', paths=diff[:6]), model_agrees=True))
             # (c) a failing child must be fatal
-            if n % 4 == 0:
-                f_exe, _ = recorder(sb.dir, status=3)
-                rcf, txtf = run_cmake(sb.dir, f_exe, inp, outa, extra, mode=mode)
-                out.traces_validated += 1
+            if n % 2 == 0:
+                how = ['status-3', 'no-such-executable', 'status-255', 'killed-by-signal'][(n // 2) % 4]
+                if how == 'no-such-executable': f_exe = os.path.join(sb.dir, 'removed', 'cminx')
+                elif how == 'killed-by-signal':
+                    f_exe = os.path.join(sb.dir, 'dies.py')
+                    write_exec(f_exe, f"#!{PY}\nimport os, signal\nos.kill(os.getpid(), signal.SIGKILL)\n")
+                else: f_exe, _ = recorder(sb.dir, status=int(how.split('-')[1]))
+                rcf, txtf = run_cmake(sb.dir, f_exe, inp, outa, extra, mode=mode, ctx=ctx)
+                out.traces_validated += 1; out.dist['failing-child:' + how] += 1
                 if rcf == 0 or 'configure continues' in txtf:
-                    out.violations.append(dict(rec, detail=dict(kind='non-zero child status not fatal', cmake_status=rcf), model_agrees=True))
+                    out.violations.append(dict(rec, detail=dict(kind='a failing cminx (' + how + ') was not fatal to the CMake run', cmake_status=rcf, output=txtf[-300:]), model_agrees=True))
         done += 1
     out.suites.append(dict(name='cmake', runs=done))
 
